@@ -279,6 +279,29 @@ func VerifyUnit(prog *Program, cs *ContractSet, uc *UnitContract) *UnitResult {
 			}
 		}
 	}
+	if uc.Region != "" && len(uc.RetEnsures) > 0 {
+		// every return statement inside the region: clauses over the returned values (result0, result1, ...)
+		for ri, r := range o.Rets {
+			if r.St == nil || r.St.pc.IsFalse() {
+				continue
+			}
+			x.retBind = map[string]Value{}
+			for k, v := range r.Vals {
+				x.retBind[fmt.Sprintf("result%d", k)] = v
+				if k == 0 {
+					x.retBind["__result"] = v
+				}
+			}
+			spOut := x.specCtxAt(endPos, nil)
+			for _, en := range uc.RetEnsures {
+				if !on(en.Tags) {
+					continue
+				}
+				x.assert(r.St, x.specBool(en, r.St, spOut), "post-return", fmt.Sprintf("%s/post-return:%s@%d", uc.ID(), en.Name, ri+1), en.Tags, token.NoPos, en.Text)
+			}
+		}
+		x.retBind = nil
+	}
 	for _, as := range uc.AtStmts {
 		if as.Used == 0 {
 			res.Errors = append(res.Errors, fmt.Sprintf("contract cannot bind: %s: no statement starts with %q", uc.ID(), as.Anchor))
